@@ -31,7 +31,7 @@ FUNCS = [
     ("ubxreader.py", "UBXReader.parse"), ("ubxreader.py", "UBXReader.read"), ("ubxreader.py", "UBXReader._parse_ubx"),
     ("ubxreader.py", "UBXReader._parse_nmea"), ("ubxreader.py", "UBXReader._parse_rtcm3"),
     ("ubxreader.py", "UBXReader._read_bytes"), ("ubxreader.py", "UBXReader._read_line"), ("ubxreader.py", "UBXReader._do_error"),
-    ("ubxreader.py", "UBXReader.__next__"),
+    ("ubxreader.py", "UBXReader.__next__"), ("ubxreader.py", "UBXReader.__init__"), ("ubxreader.py", "UBXReader.__iter__"),
     ("socket_wrapper.py", "SocketWrapper._recv"), ("socket_wrapper.py", "SocketWrapper.read"),
     ("socket_wrapper.py", "SocketWrapper.readline"),
     ("ubxmessage.py", "UBXMessage.config_set"), ("ubxmessage.py", "UBXMessage.config_del"),
